@@ -170,6 +170,9 @@ def witness_cases():
     }
 
 
+LEN_LT_WITNESS = "def t0() -> None:\n    xs = [1, 2]\n    if len(xs) < 3:\n        println(1)\ndef main() -> None:\n    t0()\n"
+
+
 def fn_of_error_lines(msg, main_rs):
     """names of the functions rustc reported errors in"""
     try:
@@ -286,8 +289,8 @@ def run(chk):
             layout["%sb%d" % (tagp, b)] = [("t%d" % i, i) for i in chunk]
     widx = {k: wnames.index(k) for k in wnames}
     type_w = [k for k in ("andor-unchecked", "arith-partner-unchecked", "rebind-same-scope", "break-outside-loop", "elif-unchecked",
-                          "range-arg-unchecked", "compound-bool") if k in known]
-    lint_w = [k for k in ("const-overflow", "int-fallback") if k in known]
+                          "range-arg-unchecked", "compound-bool") if k in known and not real[widx[k]].get("check", ["x"])]
+    lint_w = [k for k in ("const-overflow", "int-fallback") if k in known and not real[widx[k]].get("check", ["x"])]
     if type_w:
         layout[tagp + "w0"] = [("w%d" % widx[k], widx[k]) for k in type_w]
     if lint_w:
@@ -326,11 +329,22 @@ def run(chk):
     finally:
         shutil.rmtree(d, ignore_errors=True)
         c01.clean_gen_target([stem for stem, _ in progs])
+    if "len-lt" in known:
+        r = c01.emit_real(dbg, [LEN_LT_WITNESS])[0]
+        if not r.get("check") and r.get("gen") != "ok":
+            reproduced.add("len-lt")
     # witnesses whose failure is at code generation (no rustc needed)
     for k in wnames:
         i = widx[k]
         if not real[i].get("check") and real[i].get("gen") != "ok":
             reproduced.add(k)
+
+    # ---- wide constructs (models, lists, lvalue paths, keyword arguments, keyword-like names): valid programs, so every one
+    # the real checker accepts must lower, emit, re-parse with syn and compile (oracle only: not in the Coq model)
+    wfails, wstats = c01.wide_oracle(chk, dbg, 70 if quick else 400, "c02")
+    fails += [f for f in wfails if f["why"].startswith("the checker accepts") or f["why"].startswith("the compiler panicked")]
+    chk.coverage["wide_constructs_oracle_only"] = c01.WIDE_CONSTRUCTS
+    chk.coverage.update(wstats)
 
     chk.coverage["rule"] = ("seeded generator: valid fragment functions (C01's generator, every integer anchored to i64) with, in 55% of them, one injected "
                             "violation of a documented rule (22 kinds: 14 the checker misses, 8 it enforces) + the 11 witnesses; for EVERY function: real "
